@@ -300,6 +300,7 @@ func checkC16(c *Ctx, r *Report) {
 	borrow(c, r, c01R3, "C01.R3.ext-bits", "C16.R3.pack-bookkeeping", 1, "the only bits of the caller's OPT that packing rewrites are the extended-RCODE octet of its TTL", nil, "Pack changes flags of its argument beyond the documented extended-RCODE bookkeeping")
 	copyKeepsType(c, r, "C16.R1.copy-type")
 	nilEntriesAgree(c, r, "C16.R1.nil-entries", []string{"Msg.CopyTo", "Msg.String", "msgLenWithCompressionMap"})
+	round12(c, r, "C16")
 }
 
 // witness names one value through which rt entered the set (for diagnosis): the first store into an allocation
